@@ -26,7 +26,7 @@ func spellings(r *gen.R) []ref.PrintOpts {
 func init() {
 	Register(&Property{
 		ID:            "C01",
-		Rule:          "core-language expressions (selector-chain grid over fixed documents; field names that are keywords, literals or builtin names in other languages (true, false, null, and, or, not, length, sort ...) used as bare identifiers in every position an identifier can take; every comparison operator between all pairs of a 44-value pool of integers and decimals at the 2^31/2^32/2^53/2^63/2^64/10^19 boundaries (as filters, multi-selects and literals); index and slice literals at the 8/16/32/64-bit boundaries over arrays of 1..300 elements in every position an index can take: after a field, after a pipe, on the current node, after a parenthesis, inside projections and filters; seeded document-directed random ASTs rendered in two spellings) evaluated by Search and Compile+Search and compared with the independent reference model; a case is non-trivial when the model decides it and its outcome is a non-null, non-empty value or an error; distinct by (expression text, document); joins stream: a per-element let above a root-, literal- or variable-anchored sub-expression that reads the variable (32 bodies x 9 outer forms x 2..257 elements), compared with the model; hash-hostile names: 34 shapes over pairs of names colliding under twelve common 32-bit string hashes, as variables, identifiers, keys and strings; deep-shared stream: 29 comparisons with constant answers over values that reach one container twice, nested 10..5000 levels (arrays, and arrays alternating with objects); heavy stream: 70 million node visits in one Search over 700 rows that share one 100000-element array (thorough: also 1200 and 2000 rows), constant answers",
+		Rule:          "core-language expressions (selector-chain grid over fixed documents; field names that are keywords, literals or builtin names in other languages (true, false, null, and, or, not, length, sort ...) used as bare identifiers in every position an identifier can take; every comparison operator between all pairs of a 44-value pool of integers and decimals at the 2^31/2^32/2^53/2^63/2^64/10^19 boundaries (as filters, multi-selects and literals); index and slice literals at the 8/16/32/64-bit boundaries over arrays of 1..300 elements in every position an index can take: after a field, after a pipe, on the current node, after a parenthesis, inside projections and filters; seeded document-directed random ASTs rendered in two spellings) evaluated by Search and Compile+Search and compared with the independent reference model; a case is non-trivial when the model decides it and its outcome is a non-null, non-empty value or an error; distinct by (expression text, document); joins stream: a per-element let above a root-, literal- or variable-anchored sub-expression that reads the variable (32 bodies x 9 outer forms x 2..257 elements), compared with the model; hash-hostile names: 34 shapes over pairs of names colliding under twelve common 32-bit string hashes, as variables, identifiers, keys and strings; deep-shared stream: 29 comparisons with constant answers over values that reach one container twice, nested 10..5000 levels (arrays, and arrays alternating with objects); heavy stream: 70 million node visits in one Search over 700 rows that share one 100000-element array (thorough: also 1200 and 2000 rows), constant answers; many-elements stream: 45 per-element forms (selector chains that end early on a missing member, filters, lets, every by-function with string and number keys, merges, comparisons) over 70000 records / two-record groups (thorough 150000), two thirds of which take the short way; wide-joins: join-shaped multi-selects with 8 / 63 / 70 / 130 columns each binding its own two names",
 		MinNontrivial: 200,
 		Streams: []Stream{
 			{Name: "random", N: func(c *Ctx) int { return tierN(c, 30000, 10000000) }, Run: c01Random},
